@@ -623,6 +623,11 @@ impl<A: Flavor> World<A> {
         let rs = a.reserved_slice();
         ensure!(rs.len() == self.cfg.reserved as usize, "C16", "reserved-len", "reserved_slice().len()={} configured {}", rs.len(), self.cfg.reserved);
         ensure!(rs == &self.reserved_expect[..], "C16", "reserved-written", "reserved prefix was modified by an arena operation");
+        // C16: the descriptive accessors of every live arena value (clones included) report the mode and options
+        // the arena was created / opened with, whatever has happened since
+        for ix in self.live_arena_ixs() {
+            self.check_accessors(self.aref(ix), ix, post)?;
+        }
         // cursor in range (C01 relies on it)
         ensure!(post.allocated >= d && post.allocated <= post.capacity, "C01", "cursor-range", "allocated()={} outside [data_offset={}, capacity={}]", post.allocated, d, post.capacity);
         if post.allocated > self.high_water {
@@ -660,6 +665,34 @@ impl<A: Flavor> World<A> {
         if !self.mode.lenient {
             self.check_freelist(post, &rs)?;
         }
+        Ok(())
+    }
+
+    fn check_accessors(&self, a: &A, ix: usize, post: &Snap) -> R {
+        let cfg = &self.cfg;
+        let file = self.path.is_some();
+        let want_d = expected_data_offset::<A>(cfg);
+        ensure!(a.data_offset() == want_d, "C16", "data-offset", "arena value #{ix}: data_offset()={} but Options says {want_d} (op {})", a.data_offset(), self.opno);
+        ensure!(a.unify() == (cfg.unify || file), "C16", "acc-unify", "arena value #{ix}: unify()={} configured {} file-backed {file}", a.unify(), cfg.unify);
+        ensure!(a.read_only() == self.ro, "C16", "acc-read-only", "arena value #{ix}: read_only()={} opened read-only {}", a.read_only(), self.ro);
+        ensure!(a.is_map() == (cfg.backend != Backend::Vec), "C16", "acc-is-map", "arena value #{ix}: is_map()={} for {:?}", a.is_map(), cfg.backend);
+        ensure!(a.is_ondisk() == file && a.is_inmemory() == !file, "C16", "acc-ondisk", "arena value #{ix}: is_ondisk()={} is_inmemory()={} for {:?}", a.is_ondisk(), a.is_inmemory(), cfg.backend);
+        ensure!(
+            a.is_map_anon() == (cfg.backend == Backend::Anon) && a.is_map_file() == file,
+            "C16", "acc-map-kind",
+            "arena value #{ix}: is_map_anon()={} is_map_file()={} for {:?}", a.is_map_anon(), a.is_map_file(), cfg.backend
+        );
+        ensure!(a.magic_version() == cfg.magic && a.version() == 0, "C16", "acc-magic", "arena value #{ix}: magic_version()={} version()={} configured {}", a.magic_version(), a.version(), cfg.magic);
+        ensure!(a.page_size() == self.page, "C16", "acc-page-size", "arena value #{ix}: page_size()={} sysconf {}", a.page_size(), self.page);
+        ensure!(a.reserved_bytes() == cfg.reserved as usize, "C16", "acc-reserved-bytes", "arena value #{ix}: reserved_bytes()={} configured {}", a.reserved_bytes(), cfg.reserved);
+        ensure!(a.path().is_some() == file, "C16", "acc-path", "arena value #{ix}: path() is {} for a {} arena", if a.path().is_some() { "Some" } else { "None" }, if file { "file-backed" } else { "in-memory" });
+        // every value of one arena describes the same arena
+        ensure!(
+            a.capacity() == post.capacity && a.allocated() == post.allocated && a.remaining() == post.remaining && a.minimum_segment_size() == post.minseg,
+            "C16", "acc-clone-differs",
+            "arena value #{ix} reports capacity {} allocated {} remaining {} min segment {}, value #{} reports {} {} {} {}",
+            a.capacity(), a.allocated(), a.remaining(), a.minimum_segment_size(), self.first(), post.capacity, post.allocated, post.remaining, post.minseg
+        );
         Ok(())
     }
 
@@ -1647,9 +1680,16 @@ impl<A: Flavor> World<A> {
         let mut e = pre.clone();
         e.capacity = want;
         e.remaining = want - pre.allocated;
-        ensure!(post == e, "C18", "truncate-side-effect", "truncate({n}) changed more than the capacity: {pre:?} -> {post:?}");
+        // what the statement lists first: allocated(), discarded(), the free list, every byte below allocated()
+        ensure!(
+            post.allocated == pre.allocated && post.discarded == pre.discarded && post.fl == pre.fl,
+            "C18", "truncate-side-effect",
+            "truncate({n}) changed allocated() / discarded() / the free list: {pre:?} -> {post:?}"
+        );
         let after = &self.mem()[..post.allocated];
         ensure!(after == &before[..], "C18", "truncate-bytes", "truncate({n}) changed bytes below allocated()");
+        // "... and nothing else" (the property's title): the rest of the observation tuple
+        ensure!(post == e, "C18", "truncate-other-state", "truncate({n}) changed more than the capacity: {pre:?} -> {post:?}");
         self.truncated = true;
         self.dirtied.resize(want, false);
         if n < pre.capacity {
@@ -1717,10 +1757,14 @@ impl<A: Flavor> World<A> {
         };
         let file_len = std::fs::metadata(&path).map(|m| m.len()).unwrap_or(0) as usize;
         let off = self.cfg.off_pages as usize * self.page;
-        let larger = closing.capacity + 1 + (self.opno * 37) % 300;
+        // "same capacity" means the capacity of the arena the FILE holds: after a copy-on-write session (which may have
+        // truncated its private mapping below the file's stored cursor) that is the capacity saved when the session
+        // was opened, never the session's own
+        let base_cap = file_state.capacity;
+        let larger = base_cap + 1 + (self.opno * 37) % 300;
         let o = self.opts.with_read(true).with_offset(off as u64);
         let o = match capsel % 3 {
-            0 => o.with_capacity(closing.capacity as u32),
+            0 => o.with_capacity(base_cap as u32),
             1 => o.with_capacity(larger as u32),
             _ => o,
         };
@@ -1762,7 +1806,7 @@ impl<A: Flavor> World<A> {
         ensure!(a.read_only() == self.ro, "C05", "reopen-ro-flag", "{what}: read_only()={}", a.read_only());
         let len_now = std::fs::metadata(&path).map(|m| m.len()).unwrap_or(0) as usize;
         let want_cap = match capsel % 3 {
-            0 => closing.capacity,
+            0 => base_cap,
             1 => larger,
             _ => file_len - off,
         };
